@@ -25,11 +25,13 @@ Definition agree_nc {A} (o : out A) (r : rres A) : Prop :=
 Lemma rev'_rev {A} (l : list A) : rev' l = rev l.
 Proof. unfold rev'. rewrite rev_alt. reflexivity. Qed.
 
+Ltac msimp := cbn [rest pre tokrev hd_error shift drop take length app is_ws].
 Ltac mstep :=
-  unfold space, newline, bump, expect;
-  unfold bind, ret, fail, part, fault_, next, peek, slice, slice_skip, commit, advance,
-         peek_n, peek_ahead, pos, apos;
-  cbn [rest pre tokrev hd_error shift drop take length app is_ws].
+  try unfold space; try unfold newline; try unfold bump; try unfold expect;
+  try unfold bind; try unfold ret; try unfold fail; try unfold part; try unfold fault_;
+  try unfold next; try unfold peek; try unfold slice; try unfold slice_skip; try unfold commit;
+  try unfold advance; try unfold peek_n; try unfold peek_ahead; try unfold pos; try unfold apos;
+  msimp.
 
 Ltac split_if :=
   match goal with
@@ -74,5 +76,242 @@ Proof.
     + exact IH.
     + rewrite IH. f_equal. f_equal. lia.
   - reflexivity.
+Qed.
+
+(* ---- facts about single bytes ---- *)
+Lemma is_eq k b : is k b = true -> b = k.
+Proof. unfold is. apply N.eqb_eq. Qed.
+Lemma tchar_sp b : is 32 b = true -> tchar b = false.
+Proof. intros H. apply is_eq in H. subst. reflexivity. Qed.
+Lemma uri_sp b : is 32 b = true -> uri_char b = false.
+Proof. intros H. apply is_eq in H. subst. reflexivity. Qed.
+
+Lemma span_first_bad p l : span p l = (firstn (first_bad p l) l, skipn (first_bad p l) l).
+Proof.
+  induction l as [|b r IH]; [reflexivity|]. cbn [span first_bad].
+  destruct (p b); [|reflexivity]. rewrite IH. reflexivity.
+Qed.
+
+(* ---- parse_token / parse_method ---- *)
+Definition ref_token_tail (p : nat) (t : list N) (l : list N) : rres sl :=
+  let (m, r) := span tchar l in
+  match r with
+  | [] => RPart
+  | b :: r' =>
+      if is 32 b then ROk (Sub p (rev t ++ m)) (S (length m + length t) + p) r' else RErr Token
+  end.
+
+Lemma parse_token_f_agree : forall f l t p,
+  length l < f -> bytes_ok l ->
+  agree (parse_token_f E f (mkcur p t l)) (ref_token_tail p t l).
+Proof.
+  induction f as [|f IH]; intros l t p Hl Hb; [lia|].
+  destruct l as [|b r]; [reflexivity|].
+  apply bytes_ok_cons in Hb as [Hb0 Hbr].
+  cbn [parse_token_f]. unfold ref_token_tail. cbn [span]. mstep. unfold SP.
+  rewrite (ok_method E HE b Hb0).
+  destruct (is 32 b) eqn:E32.
+  - rewrite (tchar_sp b E32). msimp. cbn [agree]. rewrite E32, rev'_rev, app_nil_r. reflexivity.
+  - destruct (tchar b) eqn:Et; cbn [negb].
+    + specialize (IH r (b :: t) p). unfold ref_token_tail in IH.
+      destruct (span tchar r) as [m r'] eqn:Es.
+      cbn [length] in Hl. specialize (IH ltac:(lia) Hbr).
+      destruct r' as [|b' r'']; [exact IH|].
+      destruct (is 32 b'); [|exact IH]. cbn [agree] in *. rewrite IH.
+      cbn [rev length]. rewrite <- app_assoc. cbn [app]. f_equal. f_equal. lia.
+    + cbn [agree]. rewrite E32. reflexivity.
+Qed.
+
+Lemma parse_token_agree : forall f l p,
+  length l < f -> bytes_ok l ->
+  agree (parse_token E f (mkcur p [] l)) (ref_method p l).
+Proof.
+  intros f l p Hl Hb. unfold parse_token, ref_method.
+  destruct l as [|b r]; [reflexivity|].
+  apply bytes_ok_cons in Hb as [Hb0 Hbr]. mstep.
+  rewrite (ok_method E HE b Hb0). cbn [span].
+  destruct (tchar b) eqn:Et; cbn [negb].
+  - pose proof (parse_token_f_agree f r [b] p ltac:(cbn [length] in Hl; lia) Hbr) as H.
+    unfold ref_token_tail in H. destruct (span tchar r) as [m r'].
+    destruct r' as [|b' r'']; [exact H|]. cbn [null].
+    destruct (is 32 b'); [|exact H]. cbn [agree rev app length] in *. rewrite H.
+    f_equal. f_equal. lia.
+  - cbn [agree null]. reflexivity.
+Qed.
+
+Lemma list_eqb_eq a b : list_eqb a b = true -> a = b.
+Proof.
+  revert b; induction a as [|x a IH]; intros [|y b]; cbn; try discriminate; [reflexivity|].
+  intros H. apply andb_prop in H as [H1 H2]. apply N.eqb_eq in H1. f_equal; auto.
+Qed.
+
+Lemma take_4 l a : take 4 l = Some a -> exists r, l = a ++ r /\ length a = 4.
+Proof.
+  rewrite take_spec. destruct (Nat.leb_spec 4 (length l)); [|discriminate].
+  intros H0. assert (Ha : a = firstn 4 l) by congruence. subst a.
+  exists (skipn 4 l). split; [symmetry; apply firstn_skipn|rewrite firstn_length; lia].
+Qed.
+
+Lemma parse_method_agree : forall f l p,
+  length l < f -> bytes_ok l ->
+  agree (parse_method E f (mkcur p [] l)) (ref_method p l).
+Proof.
+  intros f l p Hl Hb. unfold parse_method.
+  unfold bind at 1. unfold peek_n. cbn [rest].
+  destruct (take 4 l) as [four|] eqn:E4; [|apply parse_token_agree; assumption].
+  destruct (list_eqb four GET_) eqn:EG.
+  - apply list_eqb_eq in EG. subst four. apply take_4 in E4 as [r [-> _]].
+    unfold GET_. cbn [app]. mstep. unfold ref_method. cbn. reflexivity.
+  - destruct (list_eqb four POST) eqn:EP; [|apply parse_token_agree; assumption].
+    apply list_eqb_eq in EP. subst four. apply take_4 in E4 as [r [-> _]].
+    unfold POST. cbn [app]. mstep.
+    destruct r as [|b r'].
+    + cbn [hd_error]. apply parse_token_agree; assumption.
+    + cbn [hd_error]. destruct (is SP b) eqn:ES; [|apply parse_token_agree; assumption].
+      unfold SP in ES. unfold ref_method. cbn [span]. 
+      change (tchar 80) with true. change (tchar 79) with true. change (tchar 83) with true. change (tchar 84) with true.
+      cbn iota. rewrite (tchar_sp b ES). cbn [agree null length]. rewrite ES. reflexivity.
+Qed.
+
+(* ---- parse_uri ---- *)
+Lemma parse_uri_agree : forall f l p,
+  length l < f -> bytes_ok l ->
+  agree (parse_uri E f (mkcur p [] l)) (ref_target p l).
+Proof.
+  intros f l p Hl Hb. unfold parse_uri, ref_target. rewrite span_first_bad.
+  set (k := first_bad uri_char l).
+  assert (Hk : k <= length l) by apply first_bad_le.
+  unfold bind at 1. unfold pos at 1. cbn [apos tokrev pre length Nat.add].
+  unfold bind at 1. rewrite (ok_s_uri E HE f (mkcur p [] l) Hb Hl). cbn [rest]. fold k.
+  unfold adv. cbn [pre tokrev rest]. rewrite app_nil_r. clearbody k.
+  unfold bind at 1. unfold pos at 1. unfold apos. cbn [tokrev pre].
+  rewrite rev_length, firstn_length, Nat.min_l by exact Hk.
+  destruct (skipn k l) as [|b r'] eqn:Es; [reflexivity|].
+  mstep. unfold SP. destruct (is 32 b) eqn:E32; [|reflexivity]. cbn [negb].
+  destruct (Nat.eqb_spec (k + p) p) as [E0|E0].
+  - assert (k = 0) by lia. replace (firstn k l) with (@nil N) by (rewrite H; reflexivity).
+    reflexivity.
+  - assert (Hne : null (firstn k l) = false).
+    { destruct l as [|x l']; [cbn [length] in Hk; lia|]. destruct k as [|k']; [lia|reflexivity]. }
+    rewrite Hne. msimp. cbn [sl_bytes]. rewrite rev'_rev, rev_involutive.
+    destruct (utf8_valid (firstn k l)); cbn [negb agree]; [|reflexivity].
+    rewrite rev_length, firstn_length, Nat.min_l by exact Hk. reflexivity.
+Qed.
+
+(* ---- newline! ---- *)
+Lemma newline_agree : forall c,
+  agree (newline c) (ref_eol NewLine (apos c) (rest c)).
+Proof.
+  intros [p t l]. unfold ref_eol. cbn [apos rest tokrev pre].
+  destruct l as [|b r]; [reflexivity|]. mstep. unfold CR, LF.
+  destruct (is 13 b).
+  - destruct r as [|b2 r2]; [reflexivity|]. msimp.
+    destruct (is 10 b2); [|reflexivity]. cbn [agree]. f_equal; f_equal; lia.
+  - destruct (is 10 b); [|reflexivity]. cbn [agree]. f_equal; f_equal; lia.
+Qed.
+
+(* ---- parse_version (leaves 8 bytes uncommitted) ---- *)
+Lemma parse_version_agree : forall c,
+  agree_nc (parse_version c) (ref_version (apos c) (rest c)).
+Proof.
+  intros [p t l]. unfold parse_version, ref_version. cbn [apos rest tokrev pre].
+  unfold bind at 1. unfold peek_n. cbn [rest].
+  destruct (take 8 l) as [eight|] eqn:E8.
+  - rewrite take_spec in E8. destruct (Nat.leb_spec 8 (length l)) as [H8|]; [|discriminate].
+    unfold bind at 1. rewrite advance_adv by exact H8.
+    change (HTTP1dot ++ [48%N]) with H10. change (HTTP1dot ++ [49%N]) with H11.
+    assert (Hc : apos (adv 8 (mkcur p t l)) = 8 + (length t + p) /\ rest (adv 8 (mkcur p t l)) = skipn 8 l).
+    { unfold adv, apos. cbn [pre tokrev rest]. rewrite app_length, rev_length, firstn_length, Nat.min_l by exact H8.
+      split; [lia|reflexivity]. }
+    destruct (list_eqb eight H10); [exists (adv 8 (mkcur p t l)); tauto|].
+    destruct (list_eqb eight H11); [exists (adv 8 (mkcur p t l)); tauto|reflexivity].
+  - rewrite take_spec in E8. destruct (Nat.leb_spec 8 (length l)) as [|H8]; [discriminate|].
+    unfold HTTP1dot.
+    do 8 (destruct l as [|? l]; [mstep; cbn [is_prefix];
+          repeat (msimp; cbn [andb];
+                  match goal with |- context [if is ?k ?b then _ else _] =>
+                    change (is k b) with (N.eqb b k); destruct (N.eqb b k) end);
+          msimp; cbn [andb agree_nc]; reflexivity|]).
+    cbn [length] in H8. lia.
+Qed.
+
+(* ---- status line pieces ---- *)
+Lemma space_agree : forall e c, agree (space e c) (ref_sp e (apos c) (rest c)).
+Proof.
+  intros e [p t l]. unfold ref_sp. cbn [apos rest tokrev pre].
+  destruct l as [|b r]; [reflexivity|]. mstep. unfold SP.
+  destruct (is 32 b); [|reflexivity]. cbn [agree]. f_equal.
+Qed.
+
+Lemma parse_code_agree : forall c, agree_nc (parse_code c) (ref_code (apos c) (rest c)).
+Proof.
+  intros [p t l]. unfold parse_code, ref_code. cbn [apos rest tokrev pre].
+  change is_digit with digit.
+  destruct l as [|a r1]; [reflexivity|]. mstep. destruct (digit a); cbn [negb]; [|reflexivity].
+  destruct r1 as [|b r2]; [reflexivity|]. msimp. destruct (digit b); cbn [negb]; [|reflexivity].
+  destruct r2 as [|c r3]; [reflexivity|]. msimp. destruct (digit c); cbn [negb]; [|reflexivity].
+  cbn [agree_nc]. eexists. split; [reflexivity|]. unfold apos. cbn [tokrev pre rest length]. split; [lia|reflexivity].
+Qed.
+
+Lemma reason_byte_char b : (b < 256)%N -> reason_byte b = reason_char b.
+Proof.
+  intros H. unfold reason_byte, reason_char, in_range, SP.
+  replace (b <=? 255)%N with true by (symmetry; apply N.leb_le; lia).
+  rewrite andb_true_r. reflexivity.
+Qed.
+Lemma reason_char_not_eol b : reason_char b = true -> is 13 b = false /\ is 10 b = false.
+Proof.
+  unfold reason_char, is, in_range. intros H. split; apply N.eqb_neq; intros ->; discriminate.
+Qed.
+
+Definition ref_reason_tail (seen : bool) (p : nat) (t : list N) (l : list N) : rres sl :=
+  let (m, r) := span reason_char l in
+  let s := if seen || negb (forallb (fun b => N.ltb b 128) m) then Ext [] else Sub p (rev t ++ m) in
+  match ref_eol Status (length m + (length t + p)) r with
+  | ROk _ o r' => ROk s o r'
+  | RPart => RPart
+  | RErr e => RErr e
+  end.
+
+Lemma parse_reason_f_agree : forall f l seen t p,
+  length l < f -> bytes_ok l ->
+  agree (parse_reason_f f seen (mkcur p t l)) (ref_reason_tail seen p t l).
+Proof.
+  induction f as [|f IH]; intros l seen t p Hl Hb; [lia|].
+  destruct l as [|b r]; [reflexivity|].
+  apply bytes_ok_cons in Hb as [Hb0 Hbr].
+  cbn [parse_reason_f]. unfold ref_reason_tail. cbn [span]. mstep. unfold CR, LF.
+  rewrite (reason_byte_char b Hb0).
+  destruct (reason_char b) eqn:Er.
+  - destruct (reason_char_not_eol b Er) as [-> ->]. cbn [negb].
+    specialize (IH r (seen || (128 <=? b)%N) (b :: t) p). unfold ref_reason_tail in IH.
+    destruct (span reason_char r) as [m r'] eqn:Es.
+    cbn [length] in Hl. specialize (IH ltac:(lia) Hbr).
+    cbn [forallb length rev] in IH |- *. rewrite <- app_assoc in IH. cbn [app] in IH.
+    replace (length m + (S (length t) + p)) with (S (length m) + (length t + p)) in IH by lia.
+    replace (seen || negb ((b <? 128)%N && forallb (fun b0 : N => (b0 <? 128)%N) m))
+      with (seen || (128 <=? b)%N || negb (forallb (fun b0 : N => (b0 <? 128)%N) m)).
+    2:{ destruct seen; cbn [orb]; [reflexivity|].
+        destruct (N.ltb_spec b 128); destruct (N.leb_spec 128 b); try lia; cbn [andb negb orb]; reflexivity. }
+    exact IH.
+  - cbn [forallb negb length rev app Nat.add]. rewrite orb_false_r, app_nil_r.
+    unfold ref_eol.
+    destruct (is 13 b) eqn:E13.
+    + destruct r as [|b2 r2]; [reflexivity|]. msimp.
+      destruct (is 10 b2); [|reflexivity]. msimp. cbn [agree]. rewrite rev'_rev.
+      destruct seen; f_equal; f_equal; lia.
+    + destruct (is 10 b) eqn:E10.
+      * msimp. cbn [agree]. rewrite rev'_rev. destruct seen; f_equal; f_equal; lia.
+      * reflexivity.
+Qed.
+
+Lemma parse_reason_agree : forall f l p,
+  length l < f -> bytes_ok l ->
+  agree (parse_reason f (mkcur p [] l)) (ref_reason p l).
+Proof.
+  intros f l p Hl Hb. pose proof (parse_reason_f_agree f l false [] p Hl Hb) as H.
+  unfold parse_reason, ref_reason, ref_reason_tail in *.
+  destruct (span reason_char l) as [m r]. cbn [orb rev app length Nat.add] in H.
+  destruct (forallb (fun b => N.ltb b 128) m); cbn [negb] in H; exact H.
 Qed.
 End WithEnv.
